@@ -374,11 +374,12 @@ def fibersAt (a : Nat) : (k : Nat) → Tree κ ν (a + 1 + k) → List (Tree κ 
 def allEmptyAt (dflt : ν) (a k : Nat) (t : Tree κ ν (a + 1 + k)) : Bool :=
   (fibersAt a k t).all (fun f => isEmpty dflt (a + 1) f)
 
-/-- `Tensor.swapRanks(depth=k)`: nothing to swap → deep copy; otherwise `swapRanks` on every
-    non-empty fiber of rank `k`, an empty fiber in place of the empty ones -/
+/-- `Tensor.swapRanks(depth=k)`: nothing to swap → an empty root (since /repo COMMIT:C14-02; a deep
+    copy of the unswapped root before); otherwise `swapRanks` on every non-empty fiber of rank `k`,
+    an empty fiber in place of the empty ones -/
 def swapT (comb : κ → κ → κ) (rev hd tl : κ → κ) (dflt : ν) (r k : Nat)
     (t : Tree κ ν (r + 2 + k)) : Option (Tree κ ν (r + 2 + k)) :=
-  if allEmptyAt dflt (r + 1) k t then some t
+  if allEmptyAt dflt (r + 1) k t then some (defaultTree dflt (r + 2 + k))
   else atDepth (fun s =>
     if isEmpty dflt (r + 2) s then some (show Tree κ ν (r + 2) from ([] : List (κ × Tree κ ν (r + 1))))
     else swapFiber comb rev hd tl dflt r s) k t
@@ -390,12 +391,12 @@ def unflattenT (hd tl : κ → κ) (dflt : ν) (r l k : Nat)
     some (defaultTree dflt (r + 2 + l + k))
   else atDepth (unflatLv hd tl r l) k t
 
-/-- `_unflattenRankIdsShape` subscripts the shape of rank `k`; without a declared shape the
-    estimate of a rank that holds no coordinate at all is the integer `0` → `TypeError` -/
-def unflattenTS (declared : Bool) (hd tl : κ → κ) (dflt : ν) (r l k : Nat)
+/-- `_unflattenRankIdsShape` only re-arranges an authoritative shape since /repo COMMIT:C14-01
+    (before, it subscripted the estimate of an undeclared shape, the integer `0` for a rank that holds
+    no coordinate → `TypeError`): declared or not, the tree transform is `unflattenT` -/
+def unflattenTS (_declared : Bool) (hd tl : κ → κ) (dflt : ν) (r l k : Nat)
     (t : Tree κ ν (r + 1 + k)) : Option (Tree κ ν (r + 2 + l + k)) :=
-  if !declared && (fibersAt r k t).all (fun f => (show List (κ × Tree κ ν r) from f).isEmpty) then none
-  else unflattenT hd tl dflt r l k t
+  unflattenT hd tl dflt r l k t
 
 /-- `Tensor.flattenRanks / mergeRanks(depth=k, levels=l+1)` -/
 def mergeT (tup lin : Bool) (z : ν) (comb : Nat → κ → κ → κ) (mf : List ν → Option ν) (dflt : ν)
